@@ -119,11 +119,17 @@ class CmdOption(object):
 
     def validate_choice(self, given_value):
         """raise error is value is not a valid choice"""
-        if given_value not in self.choices:
-            msg = ("Error parsing parameter '{}'. "
-                   "Provided '{}' but available choices are: {}.")
-            choices = ", ".join(f"'{k}'" for k in self.choices.keys())
-            raise CmdParseError(msg.format(self.name, given_value, choices))
+        # value from an option of type list contains several items
+        if isinstance(given_value, list):
+            values = given_value
+        else:
+            values = [given_value]
+        for value in values:
+            if value not in self.choices:
+                msg = ("Error parsing parameter '{}'. "
+                       "Provided '{}' but available choices are: {}.")
+                choices = ", ".join(f"'{k}'" for k in self.choices.keys())
+                raise CmdParseError(msg.format(self.name, value, choices))
 
 
     _boolean_states = {
@@ -329,6 +335,8 @@ class CmdParse(object):
             if this.type is bool:
                 params[this.name] = not inverse
             elif this.type is list:
+                if this.choices:
+                    this.validate_choice(val)
                 # create a new list, the current value might be the
                 # option's default object. Assign to mark as non-default.
                 params[this.name] = params[this.name] + [val]
